@@ -43,7 +43,9 @@ MsgQ(s, q) ==
            L == 1 + Size(s, 44) + (IF H(s, 45) % 7 = 0 THEN 65536 * (H(s, 46) % 200) ELSE 0)
            off == IF H(s, 47) % 3 = 0 THEN 0 ELSE H(s, 48) % L
            room == L - off
-           fl == IF off = 0 THEN (H(s, 49) % Min2(room, 3000)) ELSE (H(s, 49) % (Min2(room, 3000) + 1))      \* off = 0: strictly less than the length
+           fl == IF off = 0 THEN (H(s, 49) % Min2(room, 3000))                                           \* off = 0: strictly less than the length
+                 ELSE IF H(s, 51) % 4 = 0 /\ room <= 3000 THEN room + 1 + (H(s, 52) % 40)                               \* a later fragment reaching PAST the end of the message: still fragment-length bytes
+                 ELSE (H(s, 49) % (Min2(room, 3000) + 1))
            d == Bs(s, 50, fl) IN
        [bytes |-> EncDtlsHs(mt, L, ms, off, fl, d),
         want |-> [t |-> "hs", mt |-> mt, len |-> L, mseq |-> ms, off |-> off, flen |-> fl, body |-> [t |-> "Fragment", data |-> d], frag |-> TRUE]]
